@@ -99,6 +99,17 @@ def op_list(cfg, prop):
     k0, k1, k2 = cfg['keys']
     v0, v1 = cfg['values']
     U = UNENC
+    if cfg.get('narrow'):
+        # a dozen operations explored deep (state that an operation leaves behind in the handle -- an open transaction,
+        # a stale listing -- only shows two or three operations later, or through another handle)
+        ops = [('setitem', k0, v0), ('setitem', k1, v1), ('setitem', k0, v1), ('delitem', k0), ('pop', k1), ('clear',),
+               ('update', ((k0, v0), (k2, v1))), ('update', ()), ('popitem',), ('setdefault', k2, v0), ('items',), ('len',),
+               ('copyname',), ('eq_other',)]
+        if BACKENDS[cfg['backend']][0] in archmc.PERSISTENT and not cfg.get('cached'):
+            ops.append(('reopen',))
+        if prop == 'C04':
+            ops.append(('mutate',))
+        return ops
     ops = []
     for k in (k0, k1, k2):
         for v in (v0, v1, U):
@@ -425,7 +436,7 @@ def _fin(res, name):
 
 
 def cfg_name(cfg):
-    return '%s%s keys=%s values=%s' % (cfg['backend'], ' cached' if cfg.get('cached') else '',
+    return '%s%s%s keys=%s values=%s' % (cfg['backend'], ' cached' if cfg.get('cached') else '', ' narrow' if cfg.get('narrow') else '',
                                        describe(cfg['keys']), describe(cfg['values']))
 
 
@@ -485,6 +496,8 @@ def c03_configs(tier):
         if tier == 'thorough' and fam == 'dir' and enc == 'pickle':
             cfgs.append({'backend': backend, 'keys': KEY_SETS['hostile'][0], 'values': valsets[0], 'cached': False})
         cfgs.append({'backend': backend, 'keys': keysets[0], 'values': valsets[0], 'cached': True})
+        if fam in archmc.PERSISTENT and backend not in archmc.RELNAME:
+            cfgs.append({'backend': backend, 'keys': keysets[0], 'values': valsets[0], 'cached': False, 'narrow': True})
     return cfgs
 
 
@@ -504,6 +517,8 @@ def run_c03(tier, seed, prop='C03'):
         d, s = depth, states
         if fam in ('sql', 'sqlmem'):
             d = 3 if tier == 'quick' else 4
+        if c.get('narrow'):
+            d, s = (4, 600) if tier == 'quick' else (6, 6000)
         tasks.append((prop, c, d, s))
     for res in pool.run_configs(explore, tasks, seed=seed):
         rep.merge(res)
